@@ -31,6 +31,7 @@ type Val struct {
 	Addr    *Addr
 	CLen    int
 	HasCLen bool
+	From    *Addr // address the value was loaded from (provenance, for guarded_by)
 }
 
 func (v *Val) String() string {
